@@ -505,7 +505,14 @@ impl StakeMachine {
                         format!("{what}: claim amount {} but stake vault moved by {} and pending vault by {}", show(claim), show(&(&qv.k - &pv.k)), show(&(&qv.p - &pv.p))),
                     ));
                 }
-                // claim ≤ units · stake / supply  ⇔  claim · supply ≤ units · stake   (supply ≥ burned > 0)
+                if pv.s.is_zero() {
+                    // nothing in circulation: only an empty bucket can be handed in, and it must be worth nothing
+                    if !claim.is_zero() {
+                        return Err(("unstake-claims-more-than-share".into(), format!("{what}: no units in circulation but the claim is {}", show(claim))));
+                    }
+                    return Ok("Unstake:ok:zero-claim".into());
+                }
+                // claim ≤ units · stake / supply  ⇔  claim · supply ≤ units · stake   (supply > 0)
                 if claim * &pv.s > &burned * &pv.k {
                     return Err((
                         "unstake-claims-more-than-share".into(),
